@@ -57,9 +57,16 @@ def invErf (T : Fn) (p : Rat) : Except Err Rat :=
   else if rabs p ≥ 1 then .error .diag
   else .ok (T.invErf p)
 
+/-- `Inv_Erf` with the symmetric window (`fix:` e9e1286; `invErf` above is the form before it): `|p + 1| < 1e-16` returns -10 like `|p - 1| < 1e-16` returns 10 -/
+def invErfSym (T : Fn) (p : Rat) : Except Err Rat :=
+  if rabs (p - 1) < 1e-16 then .ok 10
+  else if rabs (p + 1) < 1e-16 then .ok (-10)
+  else if rabs p ≥ 1 then .error .diag
+  else .ok (T.invErf p)
+
 def quantileGauss (T : Fn) (p mu sigma : Rat) : Except Err Rat :=
   if sigma < 0 then .error .diag                 -- `fix:` d65f15f
-  else (invErf T (2 * p - 1)).map (fun r => mu + T.sqrt 2 * sigma * r)
+  else (invErfSym T (2 * p - 1)).map (fun r => mu + T.sqrt 2 * sigma * r)
 
 /-! ### the parameter guards of `fix:` d65f15f: the functions as coded are the guard followed by the formula above -/
 
@@ -252,13 +259,6 @@ def kdeAt (T : Fn) (d : List (Rat × Rat)) (xMin bw wsum x : Rat) : Rat :=
 def kdeNormalise (o : Interp.Obj) (norm : Rat) : Interp.Obj := o.multiply (1 / norm)
 
 /-! ## Mirrors of the repairs proposed by the second audit (fixprop-C07-4 … C07-7): the forms the code takes once they are applied -/
-
-/-- `Inv_Erf` with the symmetric window (fixprop-C07-5): `|p + 1| < 1e-16` returns -10 like `|p - 1| < 1e-16` returns 10 -/
-def invErfSym (T : Fn) (p : Rat) : Except Err Rat :=
-  if rabs (p - 1) < 1e-16 then .ok 10
-  else if rabs (p + 1) < 1e-16 then .ok (-10)
-  else if rabs p ≥ 1 then .error .diag
-  else .ok (T.invErf p)
 
 /-- mixture weights must lie in [0,1] (fixprop-C07-6) -/
 def chiBarWeightsOk (w : List Rat) : Bool := w.all (fun v => decide (0 ≤ v ∧ v ≤ 1))
